@@ -94,6 +94,12 @@ pub struct St<const N: usize> {
     pub auto_quiesce: bool,
     pub snaps: HashMap<String, Vec<u8>>,
     pub eof: HashMap<String, Option<u64>>,
+    /// blob files whose tracked end is only a lower bound (re-opened, or after a failed append)
+    pub eof_loose: std::collections::HashSet<String>,
+    /// names of blob files ever seen in the corrupted-blobs directory
+    pub seen_corrupted: std::collections::HashSet<String>,
+    /// blob files re-opened by IoDriver::open (O_APPEND: the kernel ignores the offset of a positional write)
+    pub oappend: std::collections::HashSet<String>,
 }
 
 fn key_of<const N: usize>(hex: &str) -> ArrayKey<N> {
@@ -152,6 +158,21 @@ impl<const N: usize> St<N> {
 
     fn file_path(&self, kind: &str, id: &str) -> PathBuf {
         self.dir.join(format!("t.{}.{}", id, kind))
+    }
+
+    /// the script itself damaged a file (the environment, not pearl): the C07 bookkeeping restarts from the damaged content
+    fn damaged(&mut self, p: &std::path::Path) {
+        let name = p.file_name().map(|x| x.to_string_lossy().to_string()).unwrap_or_default();
+        if name.ends_with(".blob") {
+            if let Ok(b) = std::fs::read(p) {
+                if self.snaps.contains_key(&name) {
+                    self.snaps.insert(name.clone(), b);
+                }
+            }
+            if self.eof.contains_key(&name) {
+                self.eof.insert(name, None);
+            }
+        }
     }
 }
 
@@ -463,13 +484,15 @@ async fn exec<const N: usize>(st: &mut St<N>, ctx: &mut Ctx, toks: &[&str]) {
         }
         ("trunc", [kind, id, n]) => {
             let p = st.file_path(kind, id);
-            let n: u64 = n.parse().unwrap();
-            // truncation only ever shortens a file
+            let n: i64 = n.parse().unwrap();
+            // truncation only ever shortens a file; a negative n is relative to the current end
             let cur = std::fs::metadata(&p).map(|m| m.len());
             match cur {
-                Ok(len) if n >= len => ctx.emit("trunc noop"),
-                Ok(_) => {
+                Ok(len) if n >= 0 && n as u64 >= len => ctx.emit("trunc noop"),
+                Ok(len) => {
+                    let n = if n < 0 { (len as i64 + n).max(0) as u64 } else { n as u64 };
                     let r = std::fs::OpenOptions::new().write(true).open(&p).and_then(|f| f.set_len(n));
+                    st.damaged(&p);
                     ctx.emit(format!("trunc {}", if r.is_ok() { "ok" } else { "absent" }));
                 }
                 Err(_) => ctx.emit("trunc absent"),
@@ -483,6 +506,7 @@ async fn exec<const N: usize>(st: &mut St<N>, ctx: &mut Ctx, toks: &[&str]) {
                 Ok(mut b) if pos < b.len() => {
                     b[pos] ^= mask;
                     std::fs::write(&p, b).unwrap();
+                    st.damaged(&p);
                     ctx.emit("flip ok");
                 }
                 _ => ctx.emit("flip absent"),
@@ -496,6 +520,7 @@ async fn exec<const N: usize>(st: &mut St<N>, ctx: &mut Ctx, toks: &[&str]) {
                 Ok(mut b) if pos + bytes.len() <= b.len() => {
                     b[pos..pos + bytes.len()].copy_from_slice(&bytes);
                     std::fs::write(&p, b).unwrap();
+                    st.damaged(&p);
                     ctx.emit("patch ok");
                 }
                 _ => ctx.emit("patch absent"),
@@ -547,12 +572,24 @@ async fn exec<const N: usize>(st: &mut St<N>, ctx: &mut Ctx, toks: &[&str]) {
                 match e.kind {
                     verif_io::Kind::Create => { writes += 1; if is_blob {
                         if std::path::Path::new(&e.path).exists() && st.eof.contains_key(&p) { problems.push(format!("create-over-existing:{}", p)); }
+                        // a blob id that was ever used by a file of this directory (also one quarantined since) is never handed out again
+                        else if e.ok && (st.eof.contains_key(&p) || st.seen_corrupted.contains(&p)) { problems.push(format!("blob-id-reused:{}", p)); }
+                        st.eof_loose.remove(&p);
+                        st.oappend.remove(&p);
                         st.eof.insert(p.clone(), Some(0)); } }
-                    verif_io::Kind::Open => { if is_blob { st.eof.insert(p.clone(), None); } }
+                    verif_io::Kind::Open => { if is_blob { st.eof.insert(p.clone(), None); st.oappend.insert(p.clone()); } }
                     verif_io::Kind::Append => { writes += 1; if is_blob {
                         let cur = st.eof.get(&p).cloned().flatten();
-                        if let Some(c) = cur { if c != e.offset { problems.push(format!("append-not-at-eof:{}@{}!={}", p, e.offset, c)); } }
-                        if e.ok { st.eof.insert(p.clone(), Some(e.offset + e.len)); } else { st.eof.insert(p.clone(), None); } } }
+                        if let Some(c) = cur {
+                            if st.eof_loose.contains(&p) {
+                                // after a failed (possibly partial) append or a re-open only "never below the physical end" is demanded
+                                if e.offset < c { problems.push(format!("append-below-eof:{}@{}<{}", p, e.offset, c)); }
+                            } else if c != e.offset { problems.push(format!("append-not-at-eof:{}@{}!={}", p, e.offset, c)); }
+                        }
+                        if st.oappend.contains(&p) {
+                            // O_APPEND: the bytes land at the physical end whatever the offset says; only "never shrinks" is tracked
+                            if let Some(c) = cur { st.eof.insert(p.clone(), Some(c)); st.eof_loose.insert(p.clone()); }
+                        } else if e.ok { st.eof.insert(p.clone(), Some(e.offset + e.len)); st.eof_loose.remove(&p); } else { st.eof.insert(p.clone(), None); } } }
                     verif_io::Kind::WriteAt => { writes += 1; if is_blob { problems.push(format!("positional-write-into-blob:{}@{}", p, e.offset)); } }
                     verif_io::Kind::Sync => {}
                 }
@@ -560,7 +597,16 @@ async fn exec<const N: usize>(st: &mut St<N>, ctx: &mut Ctx, toks: &[&str]) {
             // the tracked end of every blob file must be its real length
             for (p, eof) in st.eof.iter() {
                 if let (Some(c), Ok(md)) = (eof, std::fs::metadata(st.dir.join(p))) {
-                    if md.len() != *c { problems.push(format!("length-mismatch:{}:{}!={}", p, md.len(), c)); }
+                    if st.eof_loose.contains(p) { if md.len() < *c { problems.push(format!("shrunk:{}:{}<{}", p, md.len(), c)); } }
+                    else if md.len() != *c { problems.push(format!("length-mismatch:{}:{}!={}", p, md.len(), c)); }
+                }
+            }
+            // unknown ends (re-opened file, failed append): from now on the physical length is a lower bound for appends
+            let unknown: Vec<String> = st.eof.iter().filter(|(_, v)| v.is_none()).map(|(k, _)| k.clone()).collect();
+            for p in unknown {
+                if let Ok(md) = std::fs::metadata(st.dir.join(&p)) {
+                    st.eof.insert(p.clone(), Some(md.len()));
+                    st.eof_loose.insert(p);
                 }
             }
             if *mode == "quiet" && writes > 0 { problems.push(format!("writes-during-queries:{}", writes)); }
@@ -578,6 +624,7 @@ async fn exec<const N: usize>(st: &mut St<N>, ctx: &mut Ctx, toks: &[&str]) {
                         let name = e.file_name().to_string_lossy().to_string();
                         if name.ends_with(".blob") {
                             if let Ok(b) = std::fs::read(e.path()) {
+                                if !sub.is_empty() { st.seen_corrupted.insert(name.clone()); }
                                 if sub.is_empty() || !cur.contains_key(&name) { cur.insert(name, b); }
                             }
                         }
@@ -842,7 +889,7 @@ pub fn run_script<const N: usize>(script: &str) -> String {
     }
     let live = crate::LIVE_PATH.lock().unwrap().clone().and_then(|p| std::fs::File::create(p).ok());
     let mut ctx = Ctx { out: String::new(), blooms: HashMap::new(), raws: HashMap::new(), live };
-    let mut st = St::<N> { cfg, dir: dir.clone(), storage: None, written: HashMap::new(), auto_quiesce: true, snaps: HashMap::new(), eof: HashMap::new() };
+    let mut st = St::<N> { cfg, dir: dir.clone(), storage: None, written: HashMap::new(), auto_quiesce: true, snaps: HashMap::new(), eof: HashMap::new(), eof_loose: Default::default(), seen_corrupted: Default::default(), oappend: Default::default() };
     rt.block_on(async {
         for line in script.lines() {
             let line = line.trim();
